@@ -471,8 +471,9 @@ class Engine:
             if isinstance(s.value, ast.Call):
                 out = []
                 for q, r in self.exec_call(s.value, p, fr):
-                    for t in s.targets:
-                        self.assign(t, r, q, fr, s.lineno)
+                    if q.status == "run":
+                        for t in s.targets:
+                            self.assign(t, r, q, fr, s.lineno)
                     out.append(q)
                 return out
             v = self.ev(s.value, p, fr)
@@ -493,7 +494,8 @@ class Engine:
             if s.value is not None and isinstance(s.value, ast.Call):
                 out = []
                 for q, r in self.exec_call(s.value, p, fr):
-                    q.ret, q.status = r, "return"
+                    if q.status == "run":
+                        q.ret, q.status = r, "return"
                     out.append(q)
                 return out
             p.ret = self.ev(s.value, p, fr) if s.value is not None else ("c", None)
